@@ -406,7 +406,7 @@ impl io::Read for SimRead<'_> {
                 Fault::IoErrAt { call, kind } if *call == self.call => {
                     self.trace.ev(EvK::IoErr, buf.len());
                     self.trace.fire("io_err");
-                    return Err(crate::alloc::harness(|| io::Error::new(io_kind(*kind), "sim: injected io error")));
+                    return Err(io::Error::new(io_kind(*kind), "sim: injected io error"));
                 },
                 _ => {},
             }
@@ -414,7 +414,7 @@ impl io::Read for SimRead<'_> {
         if self.eintr.contains(&self.call) {
             self.trace.ev(EvK::IoEintr, buf.len());
             self.trace.fire("eintr_read");
-            return Err(crate::alloc::harness(|| io::Error::new(io::ErrorKind::Interrupted, "sim: EINTR")));
+            return Err(io::Error::new(io::ErrorKind::Interrupted, "sim: EINTR"));
         }
         let rem = self.data.len() - self.pos;
         if rem == 0 && !buf.is_empty() {
